@@ -49,7 +49,8 @@ RULE = ('Configuration grid reconnection on/off x reconnection_attempts '
         'handler; asyncio: from another task while the handler is '
         'suspended) - no effort may follow; a connect_error handler that '
         'raises at its j-th invocation during the effort - the effort goes '
-        'on.')
+        'on.'
+        ' The judged connection can be preceded by an earlier life of the same client object that the server ended (optionally with a failing disconnect handler).')
 ASSUMPTIONS = [
     'waiting is observed through the wait primitives, never by wall clock',
     '"retries until success" is checked as bounded safety (finite patterns; '
